@@ -5,6 +5,7 @@ go 1.15
 require (
 	github.com/gorilla/websocket v1.0.1-0.20161018003955-8003df83eef3
 	github.com/samsarahq/thunder v0.0.0
+	github.com/siddontang/go-mysql v0.0.0-20160925014134-d8e777f00cdb
 )
 
 replace github.com/samsarahq/thunder => /repo
